@@ -1372,6 +1372,17 @@ func (g *gen) generate() {
 		}
 		g.emit(sc)
 	}
+	// (k) regression corpus: the script on which the ghost flag `nmpOut` was first seen raised (quick tier, seed 2
+	// of the previous generator): mate in 1 at the root, null-move mate branch with beta below -Inf+ply in the
+	// second search.  No raw table value beyond ±Inf results on the real engine.
+	if rt := g.e.mkRoot("mate-band", "r3kq2/1RQ3p1/6p1/4N3/4R3/1Q1nK3/2QnpP2/3Nn3 w q - 0 30", nil); rt != nil {
+		sc := newScript("nmpout-corpus", 4096)
+		sc.add(plain(rt, 3))
+		hi := plain(rt, 5)
+		hi.nodes = 441
+		sc.add(hi)
+		g.emit(sc)
+	}
 	// (j) double mating nets: a shallow search (mate scores enter the table and the root's alpha), a deeper one on
 	// the same engine (sibling lines are searched with beta below the mated-at-this-ply score; a node of
 	// such a line that mates after passing takes the null-move mate branch; its parent's fail-low store
